@@ -89,9 +89,12 @@ def api_run(name, src, debug=0, added=None, budget=None, want_tokens=False, keep
             sys.setrecursionlimit(1000)
     r.stdout = out.getvalue()
     if r.outcome == "ok":
-        r.status = f.errors.status
-        r.diags = [(e.name, e.level, e.highlights[0].lineno if e.highlights else None,
-                    e.highlights[0].column if e.highlights else None) for e in f.errors._inner]
+        try:
+            r.status = f.errors.status
+            r.diags = [(e.name, e.level, e.highlights[0].lineno if e.highlights else None,
+                        e.highlights[0].column if e.highlights else None) for e in mon.errors_list(f.errors)]
+        except Exception as e:
+            mon.note_blind("core.api_run.diags", e)
     return r
 
 
